@@ -12,7 +12,8 @@ from ..model import FunctionInfo, AnalysisError, dotted
 from ..report import Ctx
 from ..tensor import Typer
 from ..util import norm, fn_body_nodes, walk_local, kwarg
-from .common import arg_permutation_rule, names_in, calls_named
+from .. import alg, pat
+from .common import arg_permutation_rule, names_in, calls_named, converged_from_counter
 
 EXPLANATION = (
     "Narrow structural claim for multichain policy iteration: the six returned arrays are wired to the same-named result "
@@ -25,120 +26,177 @@ RULES = ("IFC-4b tuple positions of the solver's return vs the names they are un
          "TEN-3 table sinks; BEL-1 masks; BEL-2 discount placement; BEL-4 penalty before argmax and policy construction; BEL-5 converged")
 
 
+def _assigns(fi, name):
+    return [n for n in fn_body_nodes(fi) if isinstance(n, ast.Assign) and any(isinstance(t, ast.Name) and t.id == name for t in n.targets)]
+
+
 def run(ctx: Ctx):
     P, X = ctx.P, ctx.X
     G = CallGraph(P, X)
     po = P.method("MultichainPolicyIteration", "plan_on")
     sol = P.fn("multichain_policy_iteration_vectorized")
+    mdp = po.positional_params[1]
     typer = Typer(param_arrays={"transition_matrix": "transition_matrix", "reward_matrix": "reward_matrix", "action_matrix": "action_matrix",
                                 "absorbing_state_vec": "absorbing_state_vec"})
-    # --- IFC-4b wiring
-    rets = [n for n in fn_body_nodes(sol) if isinstance(n, ast.Return)]
+    sst = [n for n in fn_body_nodes(sol) if isinstance(n, ast.stmt)]
+    # --- solver: roles of its locals, bound structurally
+    rets = [n for n in sst if isinstance(n, ast.Return)]
     if not rets or not isinstance(rets[-1].value, ast.Tuple):
         raise AnalysisError("multichain solver: tuple return vanished")
     ret_names = [ast.unparse(e) for e in rets[-1].value.elts]
-    unp = [n for n in fn_body_nodes(po) if isinstance(n, ast.Assign) and isinstance(n.targets[0], ast.Tuple) and ast.unparse(n.value) == "results"]
+    sp, env = pat.first(sol.node, "V_gain, V_bias = (V_gb[:V_n], V_gb[V_n:])", nodes=sst)
+    ctx.check(sp is not None, "IFC-4b", sol, sp if sp is not None else sol.node, "gain = first half, bias = second half of the solution", "", "gain/bias halves of the solution vector changed")
+    env = env or {}
+    loops = [n for n in sst if isinstance(n, ast.For)]
+    lvar = ast.unparse(loops[0].target) if loops else None
+    sdefs: Dict[str, List[ast.Assign]] = {}
+    for n in sst:
+        if isinstance(n, ast.Assign) and len(n.targets) == 1 and isinstance(n.targets[0], ast.Name):
+            sdefs.setdefault(n.targets[0].id, []).append(n)
+
+    def backup_of(vec):
+        out = []
+        for k, ds in sdefs.items():
+            if len(ds) == 1 and pat.find(ds[0].value, f"np.einsum(ANY, transition_matrix, {vec})"):
+                out.append(k)
+        return out[0] if len(out) == 1 else None
+    gq = backup_of(env["gain"]) if "gain" in env else None
+    bq = backup_of(env["bias"]) if "bias" in env else None
+    if sp is not None:
+        want_ret = [env["gain"], gq, env["bias"], bq, "policy", lvar]
+        what = ["gain", "gain backup (action gains)", "bias", "bias backup (action values)", "policy", "loop counter"]
+        ctx.check(len(ret_names) == 6, "IFC-4b", sol, rets[-1], "the solver returns six values", str(ret_names), f"solver returns {len(ret_names)} values")
+        for i, (r, w_, wh) in enumerate(zip(ret_names, want_ret, what)):
+            ctx.check(w_ is not None and r == w_, "IFC-4b", sol, rets[-1], f"solver's return position {i} is the {wh}", r,
+                      f"position {i} of the solver's return is `{r}`, not the {wh} `{w_}`")
+    # --- plan_on: unpacking by position
+    call = calls_named(po, "multichain_policy_iteration_vectorized")
+    if not call:
+        raise AnalysisError("MultichainPolicyIteration.plan_on: solver call vanished")
+    pst = [n for n in fn_body_nodes(po) if isinstance(n, ast.stmt)]
+    resn = next((n.targets[0].id for n in pst if isinstance(n, ast.Assign) and n.value is call[0] and isinstance(n.targets[0], ast.Name)), None)
+    unp = [n for n in pst if isinstance(n, ast.Assign) and isinstance(n.targets[0], ast.Tuple) and (n.value is call[0] or (resn and ast.unparse(n.value) == resn))]
     if not unp:
         raise AnalysisError("MultichainPolicyIteration.plan_on: result unpacking vanished")
     got = [ast.unparse(e) for e in unp[0].targets[0].elts]
-    want_map = {"gain": "state_gain", "gain_q": "action_gain", "bias": "state_bias", "bias_q": "action_bias", "i": "iterations"}
     ctx.check(len(got) == len(ret_names), "IFC-4b", po, unp[0], "unpacks as many values as the solver returns", f"{got} <- {ret_names}", f"solver returns {len(ret_names)} values, {len(got)} are unpacked")
-    for r, g in zip(ret_names, got):
-        if r in want_map:
-            ctx.check(g == want_map[r], "IFC-4b", po, unp[0], f"solver's `{r}` is unpacked as `{want_map[r]}`", "",
-                      f"the solver returns `{r}` at this position but plan_on names it `{g}`: gain and bias (or state and action arrays) are crossed")
-    # solver's own names: gain/bias come from the solved vector halves, *_q from the matching backup
-    src = ast.unparse(sol.node)
-    ctx.check("gain, bias = (gain_bias[:n_states], gain_bias[n_states:])" in src, "IFC-4b", sol, sol.node, "gain = first half, bias = second half of the solution", "", "gain/bias halves of the solution vector changed")
-    # result fields
-    r = [n for n in fn_body_nodes(po) if isinstance(n, ast.Return) and isinstance(n.value, ast.Call)]
+    pos = {g: i for i, g in enumerate(got)}
+
+    def origin(name, seen=()):
+        """position of the solver's return that `name` (as finally bound in plan_on) wraps; table constructors are looked through."""
+        ds = _assigns(po, name)
+        if not ds:
+            return pos.get(name), None
+        d = ds[-1]
+        if isinstance(d.value, ast.Call) and ast.unparse(d.value.func) in ("StateTable.from_state_list", "StateActionTable.from_state_action_lists"):
+            dat = kwarg(d.value, "data")
+            if isinstance(dat, ast.Name) and dat.id in pos:
+                return pos[dat.id], d
+            return None, d
+        return pos.get(name), None
+    r = [n for n in pst if isinstance(n, ast.Return) and isinstance(n.value, ast.Call)]
     if r:
-        kw = {k.arg: ast.unparse(k.value) for k in r[0].value.keywords}
-        pairs = {"state_gain": "state_gain", "action_gain": "action_gain", "state_value": "state_bias", "action_value": "action_bias", "iterations": "iterations", "policy": "policy"}
-        for fld, var in pairs.items():
-            ctx.check(kw.get(fld) == var, "IFC-4b", po, r[0], f"result field {fld} = {var}", "", f"result field `{fld}` is `{kw.get(fld)}`")
-        ctx.check(kw.get("initial_gain", "").replace(" ", "") == "sum((state_gain[s]*pfors,pinmdp.initial_state_dist().items()))", "IFC-4b", po, r[0],
-                  "initial_gain = expectation of the reported state_gain over initial_state_dist", "", f"initial_gain is `{kw.get('initial_gain')}`")
-        ctx.check(kw.get("initial_value", "").replace(" ", "") == "sum((state_bias[s]*pfors,pinmdp.initial_state_dist().items()))", "IFC-4b", po, r[0],
-                  "initial_value = expectation of the reported state_value over initial_state_dist", "", f"initial_value is `{kw.get('initial_value')}`")
-        cv = kw.get("converged", "")
-        from .common import converged_from_counter
-        cvn = next((k.value for k in r[0].value.keywords if k.arg == "converged"), None)
-        ctx.check(converged_from_counter(cvn, "iterations", "self.max_iterations") if cvn is not None else False, "BEL-5", po, r[0], "converged = iterations < max_iterations - 1", cv,
-                  f"converged is `{cv}`: `iterations` is the 0-based index of the last pass, so this is true even when the iteration budget was exhausted")
-    # tables
-    for var, ctor in (("state_gain", "StateTable.from_state_list"), ("action_gain", "StateActionTable.from_state_action_lists"),
-                      ("state_bias", "StateTable.from_state_list"), ("action_bias", "StateActionTable.from_state_action_lists")):
-        d = [n for n in fn_body_nodes(po) if isinstance(n, ast.Assign) and ast.unparse(n.targets[0]) == var and isinstance(n.value, ast.Call) and ast.unparse(n.value.func) == ctor]
-        ok = bool(d) and ast.unparse(kwarg(d[0].value, "data")) == var and ast.unparse(kwarg(d[0].value, "state_list")) == "mdp.state_list"
-        ctx.check(ok, "TEN-3", po, d[0] if d else po.node, f"table {var} wraps the array {var} over mdp.state_list", "", f"table `{var}` is not built from the array of the same name over the MDP's lists")
+        kwn = {k.arg: k.value for k in r[0].value.keywords}
+        kw = {k: ast.unparse(v) for k, v in kwn.items()}
+        fields = {"state_gain": (0, "StateTable.from_state_list"), "action_gain": (1, "StateActionTable.from_state_action_lists"),
+                  "state_value": (2, "StateTable.from_state_list"), "action_value": (3, "StateActionTable.from_state_action_lists")}
+        for fld, (ix, ctor) in fields.items():
+            o, d = origin(kw.get(fld, "")) if kw.get(fld, "").isidentifier() else (None, None)
+            ctx.check(o == ix, "IFC-4b", po, r[0], f"result field {fld} carries position {ix} of the solver's return", f"{kw.get(fld)} <- position {o}",
+                      f"result field `{fld}` is `{kw.get(fld)}`, which wraps position {o} of the solver's return, not position {ix}: gain and bias (or state and action arrays) are crossed")
+            ok = d is not None and ast.unparse(d.value.func) == ctor and ast.unparse(kwarg(d.value, "state_list")) == f"{mdp}.state_list" \
+                and (ctor == "StateTable.from_state_list" or ast.unparse(kwarg(d.value, "action_list")) == f"{mdp}.action_list")
+            ctx.check(ok, "TEN-3", po, d if d is not None else r[0], f"table for {fld} is laid out over the MDP's own state/action lists", "", f"table for `{fld}` is not built over {mdp}.state_list / {mdp}.action_list")
+        itn = kw.get("iterations")
+        ctx.check(pos.get(itn) == 5, "IFC-4b", po, r[0], "result field iterations carries the solver's loop counter", f"{itn}", f"`iterations` is `{itn}`, not position 5 of the solver's return")
+        for fld, tab in (("initial_gain", "state_gain"), ("initial_value", "state_value")):
+            e_ = pat.m(f"sum(V_t[V_s] * V_p for V_s, V_p in {mdp}.initial_state_dist().items())", kwn.get(fld)) or \
+                pat.m(f"sum([V_t[V_s] * V_p for V_s, V_p in {mdp}.initial_state_dist().items()])", kwn.get(fld))
+            ctx.check(e_ is not None and e_["t"] == kw.get(tab), "IFC-4b", po, r[0], f"{fld} = expectation of the reported {tab} over initial_state_dist", "", f"{fld} is `{kw.get(fld)}`")
+        cvn = kwn.get("converged")
+        ctx.check(bool(converged_from_counter(cvn, itn, "self.max_iterations")) if cvn is not None and itn else False, "BEL-5", po, r[0], "converged = iterations < max_iterations - 1", kw.get("converged", ""),
+                  f"converged is `{kw.get('converged')}`: `iterations` is the 0-based index of the last pass, so this is true even when the iteration budget was exhausted")
+        # policy
+        pn = kw.get("policy")
+        pd = _assigns(po, pn)[-1] if pn and pn.isidentifier() and _assigns(po, pn) else None
+        e_ = pat.m(f"{pn} = TabularPolicy.from_state_action_lists(state_list={mdp}.state_list, action_list={mdp}.action_list, data=V_pm)", pd) if pd is not None else None
+        ctx.check(e_ is not None, "BEL-4", po, pd if pd is not None else r[0], "policy table laid out over the MDP's state/action lists", "", "policy table is not built over the MDP's lists")
+        if e_:
+            pm = e_["pm"]
+            c1 = pat.find(po.node, f"{pm} = V_gm & V_bm", nodes=pst)
+            c2 = pat.find(po.node, f"{pm} = {pm} / {pm}.sum(-1, keepdims=True)", nodes=pst)
+            ok = bool(c1) and bool(c2) and c1[0][0].lineno < c2[0][0].lineno
+            ctx.check(ok, "BEL-4", po, c1[0][0] if c1 else po.node, "policy = normalised (gain maximisers AND bias maximisers)", "", "policy is not the normalised conjunction of gain- and bias-maximising actions")
+            if c1:
+                srcs = set()
+                for mv in (c1[0][1]["gm"], c1[0][1]["bm"]):
+                    d = _assigns(po, mv)
+                    e2 = pat.m(f"{mv} = np.isclose(V_x, V_x.max(-1, keepdims=True), REST=ANY)", d[-1]) if d else None
+                    ctx.check(e2 is not None and pos.get(e2["x"]) in (1, 3), "BEL-4", po, d[-1] if d else po.node, f"`{mv}` = maximisers over the action axis of an action array of the solver", "", f"maximiser set `{mv}` changed")
+                    if e2:
+                        srcs.add(pos.get(e2["x"]))
+                ctx.check(srcs == {1, 3}, "BEL-4", po, c1[0][0], "one maximiser set is of the action gains, the other of the action values", str(srcs), "the two maximiser sets are not those of action gain and action bias")
     # kwargs forwarded to the solver
-    call = calls_named(po, "multichain_policy_iteration_vectorized")
-    if call:
-        kw = {k.arg: ast.unparse(k.value) for k in call[0].keywords}
-        want = {"transition_matrix": "mdp.transition_matrix", "absorbing_state_vec": "mdp.absorbing_state_vec.astype(bool)", "discount_rate": "mdp.discount_rate",
-                "reward_matrix": "mdp.reward_matrix", "action_matrix": "mdp.action_matrix.astype(bool)", "max_iterations": "self.max_iterations"}
-        for k, v in want.items():
-            ctx.check(kw.get(k) == v, "IFC-4b", po, call[0], f"solver gets {k}={v}", "", f"solver's `{k}` is `{kw.get(k)}`")
+    kw = {k.arg: ast.unparse(k.value) for k in call[0].keywords}
+    want = {"transition_matrix": f"{mdp}.transition_matrix", "absorbing_state_vec": f"{mdp}.absorbing_state_vec.astype(bool)", "discount_rate": f"{mdp}.discount_rate",
+            "reward_matrix": f"{mdp}.reward_matrix", "action_matrix": f"{mdp}.action_matrix.astype(bool)", "max_iterations": "self.max_iterations"}
+    for k, v in want.items():
+        ctx.check(kw.get(k) == v, "IFC-4b", po, call[0], f"solver gets {k}={v}", "", f"solver's `{k}` is `{kw.get(k)}`")
     # --- einsums
     check_einsums_in_function(ctx, sol, typer)
     check_elementwise_in_function(ctx, sol, typer)
-    # --- masks
-    stores = {ast.unparse(n.targets[0]): n for n in fn_body_nodes(sol) if isinstance(n, ast.Assign) and isinstance(n.targets[0], ast.Subscript)}
-    for tgt, what in (("sa_rf[absorbing_state_vec]", "expected rewards of absorbing states are zeroed"),
-                      ("mp[absorbing_state_vec]", "chain rows of absorbing states are zeroed"),
-                      ("bias_q[absorbing_state_vec]", "bias action values of absorbing states are zeroed")):
-        n = stores.get(tgt)
-        ok = n is not None and isinstance(n.value, ast.Constant) and n.value.value == 0
-        ctx.check(ok, "BEL-1", sol, n if n is not None else sol.node, what, "", f"`{tgt} = 0` is missing")
+    # --- expected reward, penalty, chain, masks
+    sar, e_ = pat.first(sol.node, "V_sarf = np.einsum(E_spec, transition_matrix, reward_matrix)", nodes=sst)
+    if sar is None:
+        sar, e_ = pat.first(sol.node, "V_sarf = np.einsum(E_spec, reward_matrix, transition_matrix)", nodes=sst)
+    ok = sar is not None and isinstance(e_["spec"], ast.Constant) and str(e_["spec"].value).replace(" ", "") == "san,san->sa"
+    ctx.check(ok, "BEL-2", sol, sar if sar is not None else sol.node, "expected reward = sum over successors of T*R", "", "expected reward contraction changed")
+    sarf = e_["sarf"] if e_ else None
+    pen, e_ = pat.first(sol.node, "V_pen = np.log(action_matrix)", nodes=sst)
+    ctx.check(pen is not None, "BEL-4", sol, pen if pen is not None else sol.node, "penalty = log(action_matrix)", "", "availability penalty is not log(action_matrix)")
+    penn = e_["pen"] if e_ else None
+    mpd, e_ = pat.first(sol.node, "V_mp = discount_rate * transition_matrix[V_r, policy]", nodes=sst)
+    if mpd is None:
+        cand = [n for n, _ in pat.find(sol.node, "V_mp = E_x", nodes=sst) if pat.find(n.value, "transition_matrix[ANY, policy]")]
+        ctx.violation("BEL-2", sol, cand[0] if cand else sol.node, "policy chain = gamma * T[s, policy(s)]", f"policy chain is `{ast.unparse(cand[0].value) if cand else None}`")
+    else:
+        ctx.passed("BEL-2", sol, mpd, "policy chain = gamma * T[s, policy(s)]")
+    mpn = e_["mp"] if e_ else (cand[0].targets[0].id if mpd is None and cand else None)
+    masked = {}
+    for tgt, what in ((sarf, "expected rewards of absorbing states are zeroed"), (mpn, "chain rows of absorbing states are zeroed"), (bq, "bias action values of absorbing states are zeroed")):
+        n = pat.first(sol.node, f"{tgt}[absorbing_state_vec] = 0", nodes=sst)[0] if tgt else None
+        masked[tgt] = n
+        ctx.check(n is not None, "BEL-1", sol, n if n is not None else sol.node, what, "", f"`{tgt}[absorbing_state_vec] = 0` is missing")
     cfg = cfg_of(sol)
-    mpn = stores.get("mp[absorbing_state_vec]")
-    blk = [n for n in fn_body_nodes(sol) if isinstance(n, ast.Assign) and ast.unparse(n.targets[0]) == "coeff_block" and "np.block" in ast.unparse(n.value)]
-    if mpn is not None and blk:
-        ctx.check(cfg.dominates(cfg.node_for(mpn), cfg.node_for(blk[0])), "BEL-1", sol, mpn, "chain mask precedes the evaluation equations", "", "the evaluation equations are assembled before absorbing rows are removed")
-    # --- discount placement (AST-level normal forms)
-    defs = {ast.unparse(n.targets[0]): n for n in fn_body_nodes(sol) if isinstance(n, ast.Assign) and isinstance(n.targets[0], ast.Name)}
-    mp = defs.get("mp")
-    ok = mp is not None and ast.unparse(mp.value).replace(" ", "") == "discount_rate*transition_matrix[ss_range,policy]"
-    ctx.check(ok, "BEL-2", sol, mp if mp is not None else sol.node, "policy chain = gamma * T[s, policy(s)]", "", f"policy chain is `{ast.unparse(mp.value) if mp is not None else None}`")
-    gq = defs.get("gain_q")
-    ok = gq is not None and "discount_rate" not in ast.unparse(gq.value) and "action_penalty" in ast.unparse(gq.value) and "gain" in names_in(gq.value)
-    ctx.check(ok, "BEL-2", sol, gq if gq is not None else sol.node, "gain backup = T.gain + penalty (undiscounted)", "", f"gain backup is `{ast.unparse(gq.value) if gq is not None else None}`")
-    bq = defs.get("bias_q")
-    if bq is not None:
-        t = X.expr(sol, bq.value)
+    blk = [n for n, _ in pat.find(sol.node, "V_cb = np.block(ANY)", nodes=sst)]
+    if masked.get(mpn) is not None and blk:
+        ctx.check(cfg.dominates(cfg.node_for(masked[mpn]), cfg.node_for(blk[0])), "BEL-1", sol, masked[mpn], "chain mask precedes the evaluation equations", "", "the evaluation equations are assembled before absorbing rows are removed")
+        ctx.check(bool(pat.find(blk[0].value, f"{mpn} - ANY")), "BEL-1", sol, blk[0], "the evaluation equations use the masked chain", "", "the evaluation equations are not built from the masked policy chain")
+    # --- backups
+    gqd = sdefs[gq][0] if gq else None
+    ok = gqd is not None and "discount_rate" not in names_in(gqd.value) and penn is not None and penn in names_in(gqd.value)
+    ctx.check(ok, "BEL-2", sol, gqd if gqd is not None else sol.node, "gain backup = T.gain + penalty (undiscounted)", "", f"gain backup is `{ast.unparse(gqd.value) if gqd is not None else None}`")
+    bqd = sdefs[bq][0] if bq else None
+    if bqd is not None:
+        t = X.expr(sol, bqd.value)
         ms = monomials(t)
-        fut = [m for m in ms if classify_monomial(typer, m)["T"] and not classify_monomial(typer, m)["R"] and any(a.op != "param" or a.args[1] != "transition_matrix" for a in m)]
         fut = [m for m in ms if classify_monomial(typer, m)["T"] and classify_monomial(typer, m)["other"] and len(m) >= 2 and not any(typer.base_array(a) == "reward_matrix" for a in m)]
         for m in fut[:1]:
             d = classify_monomial(typer, m)["disc"]
-            ctx.check(d == 1, "BEL-2", sol, bq, "bias backup: future term discounted exactly once", f"degree {d}", f"bias backup carries the discount rate {d} time(s) on the future term")
+            ctx.check(d == 1, "BEL-2", sol, bqd, "bias backup: future term discounted exactly once", f"degree {d}", f"bias backup carries the discount rate {d} time(s) on the future term")
         rew = [m for m in ms if any(typer.base_array(a) == "reward_matrix" for a in m)]
         for m in rew[:1]:
-            ctx.check(classify_monomial(typer, m)["disc"] == 0, "BEL-2", sol, bq, "bias backup: reward term undiscounted", "", "reward term of the bias backup is discounted")
-        ctx.check("action_penalty" in ast.unparse(bq.value), "BEL-4", sol, bq, "bias backup carries the availability penalty", "", "availability penalty missing from the bias backup")
+            ctx.check(classify_monomial(typer, m)["disc"] == 0, "BEL-2", sol, bqd, "bias backup: reward term undiscounted", "", "reward term of the bias backup is discounted")
+        ctx.check(penn is not None and penn in names_in(bqd.value), "BEL-4", sol, bqd, "bias backup carries the availability penalty", "", "availability penalty missing from the bias backup")
+        ctx.check(sarf is not None and sarf in names_in(bqd.value), "BEL-2", sol, bqd, "bias backup includes the expected reward", "", "expected reward missing from the bias backup")
     else:
-        ctx.violation("BEL-2", sol, sol.node, "bias backup", "bias_q not computed")
-    pen = defs.get("action_penalty")
-    ctx.check(pen is not None and ast.unparse(pen.value) == "np.log(action_matrix)", "BEL-4", sol, pen if pen is not None else sol.node, "penalty = log(action_matrix)", "", "availability penalty is not log(action_matrix)")
-    sar = defs.get("sa_rf")
-    ok = sar is not None and isinstance(sar.value, ast.Call) and sar.value.args and getattr(sar.value.args[0], "value", "") .replace(" ", "") == "san,san->sa"
-    ctx.check(ok, "BEL-2", sol, sar if sar is not None else sol.node, "expected reward = sum over successors of T*R", "", "expected reward contraction changed")
+        ctx.violation("BEL-2", sol, sol.node, "bias backup", "no backup of the bias vector through the transition matrix is computed")
     # argmax over the action axis of the penalised backups
-    for v in ("gain_q", "bias_q"):
-        am = [n for n in fn_body_nodes(sol) if isinstance(n, ast.Assign) and isinstance(n.value, ast.Call) and ast.unparse(n.value.func) == "np.argmax"
-              and ast.unparse(n.value.args[0]) == v]
-        ok = bool(am) and ast.unparse(kwarg(am[0].value, "axis")) == "-1"
-        ctx.check(ok, "BEL-4", sol, am[0] if am else sol.node, f"improvement step: argmax of {v} over the action axis", "", f"no argmax over actions of {v}")
-    # policy in plan_on
-    src = ast.unparse(po.node)
-    ok = "policy_matrix = gain_max_actions & bias_max_actions" in src and "policy_matrix = policy_matrix / policy_matrix.sum(-1, keepdims=True)" in src
-    ctx.check(ok, "BEL-4", po, po.node, "policy = normalised (gain maximisers AND bias maximisers)", "", "policy is not the normalised conjunction of gain- and bias-maximising actions")
-    for v in ("action_gain", "action_bias"):
-        ok = f"np.isclose({v}, {v}.max(-1, keepdims=True)" in src
-        ctx.check(ok, "BEL-4", po, po.node, f"maximisers of {v} over the action axis", "", f"maximiser set of {v} changed")
-    asserts = [a for a in fn_body_nodes(sol) if isinstance(a, ast.Assert)]
-    ctx.check(any("any(-1).all()" in ast.unparse(a.test) for a in asserts), "BEL-4", sol, sol.node, "dead ends are rejected (every non-absorbing state has an action)", "", "dead-end assertion removed")
+    for v in (gq, bq):
+        am = pat.find(sol.node, f"V_np = np.argmax({v}, axis=-1)", nodes=sst) if v else []
+        ctx.check(bool(am), "BEL-4", sol, am[0][0] if am else sol.node, f"improvement step: argmax of the backup over the action axis", "", f"no argmax over actions of `{v}`")
+    asserts = [a for a in sst if isinstance(a, ast.Assert)]
+    ctx.check(any(pat.find(a.test, "action_matrix[~absorbing_state_vec].any(-1).all()") for a in asserts), "BEL-4", sol, sol.node, "dead ends are rejected (every non-absorbing state has an action)", "", "dead-end assertion removed")
     arg_permutation_rule(ctx, G, [x for x in P.all_functions() if x.module.name == "msdm.algorithms.multichainpolicyiteration"], "ARG")
     for rr, k in (("IFC-4b", 20), ("TEN-1", 3), ("TEN-3", 4), ("BEL-1", 4), ("BEL-2", 5), ("BEL-4", 8), ("BEL-5", 1)):
         ctx.require(rr, k)
